@@ -308,6 +308,9 @@ func newWorld(kind string, maxConn, maxReq uint32) *world {
 		codec := &ppCodec{}
 		w.pool = xstream.NewConnPool(ctx, codec, w.host)
 		w.proto = (&bolt.XCodec{}).NewXProtocol(ctx)
+	case "mx":
+		w.pool = xstream.NewConnPool(ctx, &mxCodec{}, w.host)
+		w.proto = (&bolt.XCodec{}).NewXProtocol(ctx)
 	default:
 		panic("kind")
 	}
@@ -533,7 +536,7 @@ func (w *world) response(si int, connClose bool) {
 		} else {
 			w.writeUp(s.conn, []byte("HTTP/1.1 200 OK\r\nContent-Length: 2\r\n\r\nok"))
 		}
-	case "pp":
+	case "pp", "mx":
 		w.writeUp(s.conn, w.ppResponse(s.sender.GetStream().ID()))
 	}
 	// the receiver wrapper destroys the stream first and calls OnReceive second: wait for the delivery itself
@@ -546,7 +549,7 @@ func (w *world) response(si int, connClose bool) {
 // garbage: the upstream answers stream si with bytes that are not a frame of the protocol.
 func (w *world) garbage(si int) {
 	s := w.streams[si]
-	if w.kind == "pp" {
+	if w.kind == "pp" || w.kind == "mx" {
 		// second byte = command type: not request / oneway / response => decode error
 		w.writeUp(s.conn, append([]byte{0x01, 0x7f}, make([]byte, 40)...))
 	} else {
